@@ -236,6 +236,51 @@ fn check_c08_sql(dbspec: &DbSpec, sql: &str, info: &Info, case_hash: u64, st: &m
     fails
 }
 
+/// which sides of the ON equalities are declared unique: "both_keys_unique", "one_key_unique", "no_key_unique"
+pub fn join_key_uniqueness(j: &qrlew::relation::Join) -> &'static str {
+    use qrlew::expr::{function::Function as F, Expr};
+    use qrlew::relation::JoinOperator as JO;
+    fn eqs(e: &Expr, out: &mut Vec<(Expr, Expr)>) {
+        if let Expr::Function(f) = e {
+            match f.function() {
+                F::And => f.arguments().iter().for_each(|a| eqs(a, out)),
+                F::Eq => {
+                    let a = f.arguments();
+                    out.push((a[0].clone(), a[1].clone()));
+                }
+                _ => {}
+            }
+        }
+    }
+    let e = match j.operator() {
+        JO::Inner(e) | JO::LeftOuter(e) | JO::RightOuter(e) | JO::FullOuter(e) => e,
+        JO::Cross => return "no_key_unique",
+    };
+    let mut pairs = vec![];
+    eqs(e, &mut pairs);
+    let unique = |side: &str, schema: &qrlew::relation::Schema, x: &Expr| -> bool {
+        if let Expr::Column(c) = x {
+            if c.first().map(|s| s.to_string()).as_deref() == Some(side) {
+                let name = c.last().map(|s| s.to_string()).unwrap_or_default();
+                return schema.iter().any(|f| f.name() == name && matches!(f.constraint(), Some(Constraint::Unique) | Some(Constraint::PrimaryKey)));
+            }
+        }
+        false
+    };
+    let (mut l, mut r) = (false, false);
+    for (a, b) in &pairs {
+        for x in [a, b] {
+            l |= unique("_LEFT_", j.left().schema(), x);
+            r |= unique("_RIGHT_", j.right().schema(), x);
+        }
+    }
+    match (l, r) {
+        (true, true) => "both_keys_unique",
+        (false, false) => "no_key_unique",
+        _ => "one_key_unique",
+    }
+}
+
 pub fn count_nodes(r: &Relation) -> usize {
     1 + r.inputs().iter().map(|i| count_nodes(i)).sum::<usize>()
 }
@@ -343,7 +388,7 @@ pub fn column_origin(node: &Relation, i: usize) -> String {
                 return "column".into();
             }
             // the construct most likely responsible, by priority
-            for (name, tag) in [("/", "division"), ("case", "case"), ("coalesce", "coalesce"), ("is_null", "is_null"), ("in", "in_list"), ("%", "modulo"), ("cast_as_float", "cast"), ("cast_as_text", "cast"), ("char_length", "string"), ("upper", "string"), ("lower", "string"), ("||", "string"), ("abs", "abs")] {
+            for (name, tag) in [("/", "division"), ("case", "case"), ("coalesce", "coalesce"), ("is_null", "is_null"), ("in", "in_list"), ("%", "modulo"), ("cast_as_float", "cast"), ("cast_as_text", "cast"), ("char_length", "string"), ("upper", "string"), ("lower", "string"), ("||", "string"), ("concat", "concat"), ("abs", "abs")] {
                 if f.iter().any(|x| x == name) {
                     return tag.into();
                 }
@@ -471,7 +516,10 @@ pub fn check_c07(case: &SqlCase, st: &mut Stats) -> Vec<Fail> {
                 (_, Some(hi)) if n > *hi => "size_high",
                 _ => "size_hole",
             };
-            let key = format!("C07|{kind}|{which}");
+            let mut key = format!("C07|{kind}|{which}");
+            if let (Relation::Join(j), "size_high") = (run.node, which) {
+                key.push_str(&format!("|{}", join_key_uniqueness(j)));
+            }
             bad_nodes.push(run.node as *const Relation);
             node_fails.push((
                 run.node as *const Relation,
